@@ -23,7 +23,7 @@ RULE = (
     "computed before any fault. non-trivial = the fault index lies inside the main loop (not the first evaluation) or the kind is ftarget/gtol (handlers nearby); distinct = (run, kind, index, type)"
 )
 ASSUMPTIONS = [
-    "'fresh process' is represented by the baseline computed in-process before any fault was injected (C14 shows results do not depend on history); a subprocess comparison is sampled in the thorough tier",
+    "'fresh process' is represented by the baseline computed in-process before any fault was injected; for 1 run in 30 the follow-up result is additionally compared bitwise with the result computed by a new interpreter",
 ]
 
 EXC_TYPES = {
@@ -92,6 +92,17 @@ def check(spec, stats=None):
                 in_loop = (kind in ("fun", "jac") and j >= 2) or kind in ("callback",) or (kind == "update" and j >= 1)
                 stats.case({"run": rspec, "kind": kind, "j": j, "t": tname}, in_loop or kind in ("ftarget", "gtol"), [f"kind={kind}", f"type={tname}", f"inloop={in_loop}"],
                            sample={"family": rspec["problem"]["obj"]["family"], "jac": rspec["jac"], "kind": kind, "call_index": j, "of": n, "exception": tname})
+    # "what it returns in a fresh process": sampled comparison of the follow-up result with a new interpreter
+    if spec.get("fresh_process") and ncases > 0:
+        from vf.subproc import run_in_fresh_process
+
+        fp = run_in_fresh_process(rspec, {"update_fun_def": "identity"})
+        if "exc" in fp:
+            raise Violation("nothing-left-behind[fresh-process]", f"fresh process raised {fp['exc']}")
+        d = states_equal(base.res, fp, fields=FIELDS)
+        require(d is None, "nothing-left-behind[fresh-process]", f"after {ncases} injected faults the fault-free result differs from a fresh process in field {d!r}")
+        if stats is not None:
+            stats.bump("compared-with-a-fresh-process")
     if stats is not None and ncases == 0:
         stats.case(spec, False, ["no-injection-point"])
 
@@ -106,7 +117,7 @@ def strategy(draw, all_indices=False):
     r["callback"] = "passive"
     idx = "all" if all_indices else draw(st.lists(st.integers(0, 99).map(lambda k: k / 100.0), min_size=3, max_size=12))
     types = draw(st.lists(st.sampled_from(sorted(EXC_TYPES)), min_size=3, max_size=6))
-    return {"run": r, "indices": idx, "types": types}
+    return {"run": r, "indices": idx, "types": types, "fresh_process": draw(st.integers(0, 29)) == 0}
 
 
 def shard(ctx):
